@@ -785,6 +785,68 @@ func (e *Eval) cloneBytes(fr *frame, x ssa.Instruction, src BytesV, st State) AV
 	return r
 }
 
+// bufferAppend adds one piece to what a bytes.Buffer of the generator holds.
+func (e *Eval) bufferAppend(fr *frame, st State, o *Obj, piece AV) {
+	c, _ := st[o].(CellC)
+	var parts []AV
+	switch v := c.V.(type) {
+	case StrV:
+		if v.Kind != skConst || v.S != "" {
+			e.setContent(fr, st, o, CellC{CStr("other")})
+			return
+		}
+	case BufPartsV:
+		parts = append(parts, v.Parts...)
+	default:
+		e.setContent(fr, st, o, CellC{CStr("other")})
+		return
+	}
+	e.setContent(fr, st, o, CellC{BufPartsV{Parts: append(parts, piece)}})
+}
+
+// bufferRendered: the pieces are constant text, the untouched variable-name parameter (once)
+// and one loop of quoted items (once), in that order: the file a template
+// `… var {{.Variable}} = []string{ {{range .WordList}}{{if .}}"{{.}}",{{end}}{{end}} }` renders
+// (strconv.Quote in place of the bare quotes).  The equivalent template text is what W3 judges.
+func bufferRendered(bp BufPartsV, site ssa.Instruction) *QuoteRender {
+	qr := &QuoteRender{Site: site}
+	var sb strings.Builder
+	for _, p := range bp.Parts {
+		switch v := p.(type) {
+		case StrV:
+			switch {
+			case v.Kind == skConst:
+				if strings.Contains(v.S, "{{") {
+					return nil
+				}
+				sb.WriteString(v.S)
+			case v.Kind == skRaw && qr.Var == nil && qr.Words == nil:
+				qr.Var = v
+				sb.WriteString("{{.Variable}}")
+			default:
+				return nil
+			}
+		case ItemsV:
+			if qr.Words != nil || qr.Var == nil {
+				return nil
+			}
+			qr.Words = v.Toks
+			if v.SkipEmpty {
+				sb.WriteString("{{range .WordList}}{{if .}}\"{{.}}\",\n{{end}}{{end}}")
+			} else {
+				sb.WriteString("{{range .WordList}}\"{{.}}\",\n{{end}}")
+			}
+		default:
+			return nil
+		}
+	}
+	if qr.Var == nil || qr.Words == nil {
+		return nil
+	}
+	qr.Text = sb.String()
+	return qr
+}
+
 func isASCII(s string) bool {
 	for i := 0; i < len(s); i++ {
 		if s[i] >= 0x80 {
@@ -1324,11 +1386,73 @@ func (e *Eval) model(fr *frame, x *ssa.Call, callee *ssa.Function, args []AV, st
 			e.setContent(fr, st, rv.O, CellC{KBool(false)})
 		}
 		return ret(e.fallible(x, name, st))
+	case "(*bytes.Buffer).WriteString", "(*bytes.Buffer).WriteByte", "(*bytes.Buffer).WriteRune", "(*bytes.Buffer).Write":
+		// the generator writing a file by hand: the pieces are kept (bufferRendered)
+		if rv, ok := args[0].(ResV); ok && rv.Kind == "bytes.Buffer" && rv.O != nil {
+			var piece AV = TopStr("written to the buffer")
+			switch v := args[1].(type) {
+			case StrV:
+				piece = v
+			case IntV:
+				if c, ok := v.Const(); ok && c >= 0 && c < 0x110000 && callee.Name() != "Write" {
+					piece = CStr(string(rune(c)))
+				}
+			case BytesV:
+				if sv, ok := e.resolveBytes(v, st).Str.(StrV); ok {
+					piece = sv
+				}
+			}
+			e.bufferAppend(fr, st, rv.O, piece)
+			if callee.Name() == "WriteByte" {
+				return ret(ErrV{Kind: ekNil})
+			}
+			return ret(TupleV{RangeInt(0, math.MaxInt32), ErrV{Kind: ekNil}})
+		}
+	case "fmt.Fprintf", "fmt.Fprint", "fmt.Fprintln", "io.WriteString":
+		if rv, ok := args[0].(ResV); ok && rv.Kind == "bytes.Buffer" && rv.O != nil {
+			var pieces []AV
+			okP := false
+			switch name {
+			case "io.WriteString":
+				if sv, ok := args[1].(StrV); ok {
+					pieces, okP = []AV{sv}, true
+				}
+			case "fmt.Fprintf":
+				if f, ok := args[1].(StrV); ok && f.Kind == skConst {
+					var va []AV
+					if len(args) > 2 {
+						if sv, ok := args[2].(SliceV); ok {
+							if vc, ok := st[sv.O].(VecC); ok {
+								va = vc.Elems
+							}
+						}
+					}
+					pieces, okP = formatParts(f.S, va)
+				}
+			}
+			if !okP {
+				pieces = []AV{TopStr("formatted text")}
+			}
+			for _, pc := range pieces {
+				e.bufferAppend(fr, st, rv.O, pc)
+			}
+			return ret(TupleV{RangeInt(0, math.MaxInt32), ErrV{Kind: ekNil}})
+		}
+	case "strconv.Quote":
+		if sv, ok := args[0].(StrV); ok {
+			return ret(StrV{Kind: skTop, S: "strconv.Quote", X: sv})
+		}
 	case "(*bytes.Buffer).Bytes", "(*bytes.Buffer).String":
 		if rv, ok := args[0].(ResV); ok && rv.Kind == "bytes.Buffer" && rv.O != nil {
 			if c, ok := st[rv.O].(CellC); ok {
 				if r, ok := c.V.(RenderedV); ok {
 					return ret(r)
+				}
+				if bp, ok := c.V.(BufPartsV); ok {
+					if qr := bufferRendered(bp, x); qr != nil {
+						e.QuoteRenders = append(e.QuoteRenders, QuoteRec{Render: qr, Buf: rv, State: st.clone()})
+						return ret(RenderedV{Buf: rv.O, Exec: x, Quote: qr})
+					}
 				}
 			}
 		}
